@@ -56,7 +56,7 @@ class Contract:
                  uf_params=None, assumed=False, note="", ghost=None, exc_props=None,
                  stop_ensures=(), bounded=(), globals=None, hints=None, yields_range=None,
                  recursion_measure=None, result_expr=None, sets=None, closure=None,
-                 implicit_guards=(), kwargs_param=None, callees=None):
+                 implicit_guards=(), kwargs_param=None, callees=None, definitions=()):
         self.name = name
         self.short = name.split(".")[-1]
         self.params = OrderedDict(params)     # name -> type descriptor
@@ -102,6 +102,9 @@ class Contract:
         self.kwargs_param = kwargs_param      # name of the function's **kwargs parameter (a typed dict)
         # callee name -> contract name, where the callee has several contract variants (f#variant)
         self.callees = dict(callees or {})
+        # definitional facts about spec functions that are relative to this call (e.g. the running sum
+        # of operation costs over self._schedule): assumed at entry, listed as definitions
+        self.definitions = list(definitions)
 
     def default_value(self, nm, engine):
         from .engine import State
@@ -143,6 +146,7 @@ class Registry:
         self.contracts = {}
         self.classes = {}
         self.spec_functions = {}
+        self.spec_constants = {}
         self.axioms = []          # [(label, expr-string)] assumed in every VC that mentions them
         self.lemmas = []
         self._strings = {}
@@ -188,6 +192,13 @@ class Registry:
                         for i, t in enumerate(c.returns[1])]
             else:
                 c.uf = z3.Function(base, *(sorts + [self.sort_of(c.returns)]))
+        return c
+
+    def spec_constant(self, name, ty="real"):
+        """A symbolic constant of the specification (e.g. an arbitrary cost): universally quantified
+        over by every obligation that mentions it."""
+        c = z3.Const(name, self.sort_of(ty))
+        self.spec_constants[name] = c
         return c
 
     def spec_axioms(self, fname, axioms):
